@@ -36,6 +36,36 @@ pub struct History {
     pub recs: Vec<Rec>,
     /// ELF files that exist on disk at the paths some MMAP2 records name (segment-based attribution)
     pub files: Vec<ElfDecl>,
+    /// lines of the `/tmp/perf-<pid>.map` files that exist while the recording is converted, in file order
+    pub perf_maps: Vec<(u32, PerfMapLine)>,
+    /// `--per-cpu-threads` with this many CPUs (0 = option off); the CPU of a sample is `cpu_of`
+    pub ncpu: u32,
+}
+
+/// One line of a perf map file: a well-formed `<hexaddr> <hexlen> <name>` line, or arbitrary text.
+#[derive(Clone, Debug, PartialEq)]
+pub enum PerfMapLine {
+    Fn { addr: u64, len: u64, name: String },
+    Raw(String),
+}
+
+impl PerfMapLine {
+    pub fn text(&self) -> String {
+        match self {
+            PerfMapLine::Fn { addr, len, name } => format!("{addr:x} {len:x} {name}"),
+            PerfMapLine::Raw(s) => s.clone(),
+        }
+    }
+}
+
+/// The CPU a sample is recorded on when per-CPU threads are generated (a fixed function of the sample,
+/// so that the record type needs no extra field; `Conv.cpuOf` in the Lean model is the same function).
+pub fn cpu_of(ncpu: u32, t: u64) -> u32 {
+    if ncpu == 0 {
+        0
+    } else {
+        (t % ncpu as u64) as u32
+    }
 }
 
 /// What the converter reads from an ELF file present on disk: the image base
@@ -72,7 +102,16 @@ impl History {
             let segs = f.segs.iter().map(|(a, b, c)| format!("{a},{b},{c}")).collect::<Vec<_>>().join(";");
             let _ = write!(cfg, " elf:{}:{}:{}", hex_str(&f.path), f.base_svma, segs);
         }
+        if self.ncpu != 0 {
+            let _ = write!(cfg, " percpu:{}", self.ncpu);
+        }
         let mut v = vec![cfg];
+        for (pid, l) in &self.perf_maps {
+            v.push(match l {
+                PerfMapLine::Fn { addr, len, name } => format!("perfmap {pid} {addr} {len} {}", hex_str(name)),
+                PerfMapLine::Raw(s) => format!("perfmapraw {pid} {}", hex_str(s)),
+            });
+        }
         for r in &self.recs {
             v.push(match r {
                 Rec::Sample { pid, tid, t, kernel, period, ip, chain } => {
@@ -116,8 +155,13 @@ impl History {
                                 .collect();
                             h.files.push(ElfDecl { path: str_hex(parts[1]), base_svma: parts[2].parse().ok()?, segs, exec_seg: 0 });
                         }
+                        if parts.len() == 2 && parts[0] == "percpu" {
+                            h.ncpu = parts[1].parse().ok()?;
+                        }
                     }
                 }
+                Some("perfmap") => h.perf_maps.push((n(1)? as u32, PerfMapLine::Fn { addr: n(2)?, len: n(3)?, name: str_hex(w.get(4)?) })),
+                Some("perfmapraw") => h.perf_maps.push((n(1)? as u32, PerfMapLine::Raw(str_hex(w.get(2)?)))),
                 Some("sample") => h.recs.push(Rec::Sample {
                     pid: n(1)? as u32,
                     tid: n(2)? as u32,
@@ -191,6 +235,11 @@ fn sample_id(pid: u32, tid: u32, t: u64) -> Vec<u8> {
 }
 
 pub fn encode_record(r: &Rec) -> Vec<u8> {
+    encode_record_cpu(r, 0)
+}
+
+/// `ncpu` = number of CPUs of the recording (0: every sample on CPU 0)
+pub fn encode_record_cpu(r: &Rec, ncpu: u32) -> Vec<u8> {
     match r {
         Rec::Sample { pid, tid, t, kernel, period, ip, chain } => {
             let mut b = Vec::new();
@@ -198,7 +247,7 @@ pub fn encode_record(r: &Rec) -> Vec<u8> {
             b.extend_from_slice(&pid.to_le_bytes());
             b.extend_from_slice(&tid.to_le_bytes());
             b.extend_from_slice(&t.to_le_bytes());
-            b.extend_from_slice(&0u32.to_le_bytes()); // cpu
+            b.extend_from_slice(&cpu_of(ncpu, *t).to_le_bytes()); // cpu
             b.extend_from_slice(&0u32.to_le_bytes());
             b.extend_from_slice(&period.to_le_bytes());
             b.extend_from_slice(&(chain.len() as u64).to_le_bytes());
@@ -312,7 +361,7 @@ pub fn write_perf_data(h: &History, path: &Path, layout_rng: &mut Rng) {
         while remaining > 0 {
             let live: Vec<usize> = (0..groups.len()).filter(|&g| cursors[g] < groups[g].len()).collect();
             let g = if shuffle { live[layout_rng.below(live.len() as u64) as usize] } else { live[0] };
-            data.extend_from_slice(&encode_record(groups[g][cursors[g]]));
+            data.extend_from_slice(&encode_record_cpu(groups[g][cursors[g]], h.ncpu));
             cursors[g] += 1;
             remaining -= 1;
         }
@@ -376,12 +425,129 @@ pub fn work_tmp(id: &str) -> PathBuf {
     p
 }
 
+// perf map files: `try_load_perf_map` reads the hard-coded path `/tmp/perf-<pid>.map`. The pids of the op
+// lines that have perf map lines are replaced, in the perf.data file and in the file names, by pids from
+// `1_000_000_000 + 256 * <pid of this harness process> + slot` (below 2^31; no real process and no other
+// harness process uses them), the files exist only while the case runs, and the extraction maps the ids
+// back, so the op lines and the outputs never mention the substitute pids.
+
+static PERF_MAP_SLOTS: std::sync::Mutex<[bool; 256]> = std::sync::Mutex::new([false; 256]);
+
+pub struct PidSubst {
+    /// (pid in the op lines, pid in the recording)
+    pub pairs: Vec<(u32, u32)>,
+    slots: Vec<usize>,
+    files: Vec<PathBuf>,
+}
+
+impl PidSubst {
+    pub fn none() -> Self {
+        PidSubst { pairs: Vec::new(), slots: Vec::new(), files: Vec::new() }
+    }
+    pub fn fwd(&self, id: u32) -> u32 {
+        self.pairs.iter().find(|p| p.0 == id).map(|p| p.1).unwrap_or(id)
+    }
+    /// replace every substitute pid in a text by the pid of the op lines
+    pub fn back_str(&self, s: &str) -> String {
+        let mut out = s.to_string();
+        for (op, actual) in &self.pairs {
+            let a = actual.to_string();
+            if out.contains(&a) {
+                out = out.replace(&a, &op.to_string());
+            }
+        }
+        out
+    }
+    pub fn new(h: &History) -> Self {
+        let mut pids: Vec<u32> = h.perf_maps.iter().map(|x| x.0).collect();
+        pids.sort();
+        pids.dedup();
+        let mut me = PidSubst::none();
+        if pids.is_empty() {
+            return me;
+        }
+        let base = 1_000_000_000u32 + 256 * (std::process::id() % (1 << 22));
+        loop {
+            {
+                let mut slots = PERF_MAP_SLOTS.lock().unwrap();
+                let free: Vec<usize> = (0..256).filter(|i| !slots[*i]).take(pids.len()).collect();
+                if free.len() == pids.len() {
+                    for i in &free {
+                        slots[*i] = true;
+                    }
+                    me.slots = free;
+                    break;
+                }
+            }
+            std::thread::sleep(std::time::Duration::from_millis(5));
+        }
+        for (k, pid) in pids.iter().enumerate() {
+            let actual = base + me.slots[k] as u32;
+            me.pairs.push((*pid, actual));
+            let mut text = String::new();
+            for (p, l) in &h.perf_maps {
+                if p == pid {
+                    text.push_str(&l.text());
+                    text.push('\n');
+                }
+            }
+            let path = PathBuf::from(format!("/tmp/perf-{actual}.map"));
+            std::fs::write(&path, text).expect("write perf map");
+            me.files.push(path);
+        }
+        me
+    }
+    pub fn apply(&self, h: &History) -> History {
+        if self.pairs.is_empty() {
+            return h.clone();
+        }
+        let f = |id: &u32| self.fwd(*id);
+        let mut out = h.clone();
+        for r in out.recs.iter_mut() {
+            match r {
+                Rec::Sample { pid, tid, .. } | Rec::Exit { pid, tid, .. } | Rec::Comm { pid, tid, .. } | Rec::Mmap2 { pid, tid, .. } => {
+                    *pid = f(pid);
+                    *tid = f(tid);
+                }
+                Rec::Fork { pid, tid, ppid, ptid, .. } => {
+                    *pid = f(pid);
+                    *tid = f(tid);
+                    *ppid = f(ppid);
+                    *ptid = f(ptid);
+                }
+            }
+        }
+        out
+    }
+}
+
+impl Drop for PidSubst {
+    fn drop(&mut self) {
+        for f in &self.files {
+            let _ = std::fs::remove_file(f);
+        }
+        if !self.slots.is_empty() {
+            let mut slots = PERF_MAP_SLOTS.lock().unwrap();
+            for i in &self.slots {
+                slots[*i] = false;
+            }
+        }
+    }
+}
+
 /// Runs `samply import` on the history; returns the profile JSON or an error class.
 pub fn run_import(h: &History, dir: &Path, tag: &str, extra_args: &[&str]) -> Result<Value, String> {
+    run_import_subst(h, dir, tag, extra_args).map(|x| x.0)
+}
+
+/// As `run_import`; also returns the pid substitution that was in force (for `extract_views_subst`).
+pub fn run_import_subst(h: &History, dir: &Path, tag: &str, extra_args: &[&str]) -> Result<(Value, PidSubst), String> {
     let data = dir.join(format!("{tag}.data"));
     let out = dir.join(format!("{tag}.json"));
     let mut layout = Rng::new(fnv1a(&h.to_ops()));
-    write_perf_data(h, &data, &mut layout);
+    let subst = PidSubst::new(h);
+    // the time order of the records does not depend on the ids, so the layout is the same
+    write_perf_data(&subst.apply(h), &data, &mut layout);
     let mut cmd = Command::new(samply_bin());
     cmd.arg("import").arg(&data).arg("--save-only").arg("-o").arg(&out);
     if h.reuse {
@@ -389,6 +555,9 @@ pub fn run_import(h: &History, dir: &Path, tag: &str, extra_args: &[&str]) -> Re
     }
     if h.fold {
         cmd.arg("--fold-recursive-prefix");
+    }
+    if h.ncpu != 0 {
+        cmd.arg("--per-cpu-threads");
     }
     for a in extra_args {
         cmd.arg(a);
@@ -408,7 +577,7 @@ pub fn run_import(h: &History, dir: &Path, tag: &str, extra_args: &[&str]) -> Re
     };
     let _ = std::fs::remove_file(&data);
     let _ = std::fs::remove_file(&out);
-    result
+    result.map(|v| (v, subst))
 }
 
 // ---------------------------------------------------------------------------------------------
@@ -419,7 +588,10 @@ pub enum Frame {
     Lib(String, u64),
     Raw(u64),
     Elided(u64),
+    /// a label frame that is not flagged as JS (the per-CPU thread label)
     Label(String),
+    /// a label frame flagged as JS (prepended for a JIT function classified as JS)
+    JsLabel(String),
 }
 
 #[derive(Clone, Debug)]
@@ -449,6 +621,25 @@ fn ms_to_ns(v: &Value) -> Option<u64> {
 }
 
 pub fn extract_views(p: &Value) -> Result<Vec<View>, String> {
+    extract_views_subst(p, &PidSubst::none())
+}
+
+fn back_id(subst: &PidSubst, s: &str) -> String {
+    // "<id>" or "<id>.<suffix>"
+    let (base, rest) = match s.find('.') {
+        Some(i) => (&s[..i], &s[i..]),
+        None => (s, ""),
+    };
+    match base.parse::<u32>() {
+        Ok(id) => match subst.pairs.iter().find(|p| p.1 == id) {
+            Some(p) => format!("{}{}", p.0, rest),
+            None => s.to_string(),
+        },
+        Err(_) => s.to_string(),
+    }
+}
+
+pub fn extract_views_subst(p: &Value, subst: &PidSubst) -> Result<Vec<View>, String> {
     let libs = p["libs"].as_array().ok_or("no libs")?;
     let mut views = Vec::new();
     for t in p["threads"].as_array().ok_or("no threads")? {
@@ -462,10 +653,13 @@ pub fn extract_views(p: &Value) -> Result<Vec<View>, String> {
             let res = fu["resource"][func].as_i64().unwrap_or(-1);
             if res >= 0 {
                 let lib = rt["lib"][res as usize].as_u64().unwrap_or(0) as usize;
-                let path = libs.get(lib).and_then(|l| l["path"].as_str()).unwrap_or("?").to_string();
+                let path = subst.back_str(libs.get(lib).and_then(|l| l["path"].as_str()).unwrap_or("?"));
                 Frame::Lib(path, ft["address"][f].as_i64().unwrap_or(-1) as u64)
             } else {
                 let name = fu["name"][func].as_u64().and_then(|i| strings.get(i as usize).copied()).unwrap_or("");
+                if fu["isJS"][func].as_bool() == Some(true) {
+                    return Frame::JsLabel(subst.back_str(name));
+                }
                 if let Some(h) = name.strip_prefix("0x") {
                     if let Ok(a) = u64::from_str_radix(h, 16) {
                         return Frame::Raw(a);
@@ -478,7 +672,7 @@ pub fn extract_views(p: &Value) -> Result<Vec<View>, String> {
                         }
                     }
                 }
-                Frame::Label(name.to_string())
+                Frame::Label(subst.back_str(name))
             }
         };
         let mut samples = Vec::new();
@@ -508,11 +702,11 @@ pub fn extract_views(p: &Value) -> Result<Vec<View>, String> {
             });
         }
         views.push(View {
-            pid: t["pid"].as_str().map(|s| s.to_string()).unwrap_or_else(|| t["pid"].to_string()),
-            tid: t["tid"].as_str().map(|s| s.to_string()).unwrap_or_else(|| t["tid"].to_string()),
+            pid: back_id(subst, &t["pid"].as_str().map(|s| s.to_string()).unwrap_or_else(|| t["pid"].to_string())),
+            tid: back_id(subst, &t["tid"].as_str().map(|s| s.to_string()).unwrap_or_else(|| t["tid"].to_string())),
             is_main: t["isMainThread"].as_bool().unwrap_or(false),
-            name: t["name"].as_str().unwrap_or("").to_string(),
-            process_name: t["processName"].as_str().unwrap_or("").to_string(),
+            name: subst.back_str(t["name"].as_str().unwrap_or("")),
+            process_name: subst.back_str(t["processName"].as_str().unwrap_or("")),
             start: ms_to_ns(&t["registerTime"]).unwrap_or(0),
             end: ms_to_ns(&t["unregisterTime"]),
             pstart: ms_to_ns(&t["processStartupTime"]).unwrap_or(0),
@@ -538,6 +732,7 @@ pub fn show_frame(f: &Frame) -> String {
         Frame::Raw(a) => format!("r:{a}"),
         Frame::Elided(c) => format!("e:{c}"),
         Frame::Label(s) => format!("x:{}", hex_str(s)),
+        Frame::JsLabel(s) => format!("j:{}", hex_str(s)),
     }
 }
 
@@ -614,8 +809,8 @@ pub fn render(proj: Proj, views: &[View]) -> Vec<String> {
 
 /// `samply import` + projection; errors become a single line.
 pub fn import_and_render(h: &History, proj: Proj, dir: &Path, tag: &str, stats: &mut Stats) -> Vec<String> {
-    match run_import(h, dir, tag, &[]) {
-        Ok(json) => match extract_views(&json) {
+    match run_import_subst(h, dir, tag, &[]) {
+        Ok((json, subst)) => match extract_views_subst(&json, &subst) {
             Ok(v) => {
                 stats.add("thread_entries", v.len() as u64);
                 stats.add("output_samples", v.iter().map(|x| x.samples.len() as u64).sum());
@@ -676,6 +871,146 @@ pub struct Shape {
     pub allow_fold: bool,
     /// ELF files present on disk that MMAP2 records may name (empty = offset-based attribution only)
     pub files: Vec<ElfDecl>,
+    /// generate `/tmp/perf-<pid>.map` files for some pids and call-chain addresses in / around their functions
+    pub jit: bool,
+}
+
+/// Names for perf-map functions: every branch of `JitCategoryManager::classify_jit_symbol` and of
+/// `handle_for_js_name` (JS prefixes of the table, non-JS prefixes, baseline interpreter / stub / BlinterpOp,
+/// IonIC with and without a function, V8 wasm names, self-hosted names, JSC `[Call …]` names, plain names).
+pub const JIT_NAMES: [&str; 46] = [
+    "py::f",
+    "py::g (file.py:12)",
+    "py::",
+    "JS:~foo app.js:1:2",
+    "JS:^bar",
+    "JS:+m",
+    "JS:*t",
+    "JS:?q",
+    "Script:~top",
+    "Builtin:ArrayPush",
+    "BytecodeHandler:Ldar",
+    "Interpreter: run (a.js:3:4)",
+    "BaselineThunk: x",
+    "Baseline: b (a.js:1:1)",
+    "PolymorphicCallStubBaseline: p",
+    "PolymorphicAccessStubBaseline: pa",
+    "Ion: ionf (a.js:9:9)",
+    "Wasm: w",
+    "BaselineIC: ic",
+    "IC: ic2",
+    "Trampoline: tr",
+    "WasmTrampoline: wt",
+    "VMWrapper: vm",
+    "Baseline JIT code for jscf",
+    "DFG JIT code for DFG: dfgf",
+    "FTL B3 code for FTL: ftlf",
+    "LLInt: ll",
+    "BaselineInterpreter",
+    "BlinterpOp: JumpTarget",
+    "BaselineInterpreter: stubbed (a.js:5:5)",
+    "BaselineInterpreter: map (self-hosted:12:3)",
+    "IonIC: SetElem : AccessibleButton (main.js:3560:25)",
+    "IonIC: GetProp",
+    "JS:wasm-function[5206]-5206-liftoff",
+    "JS:SceneBuilder._pushLayer-10063-turbofan",
+    "JS:noindex-liftoff",
+    "JS:plain",
+    "Ion: forEach[Call (StrictMode)]",
+    "Interpreter: diffProps[Call (StrictMode)] /home/index.js:123:12",
+    "Ion: mk[Construct] a.js:1:1",
+    "Ion: br[Call",
+    "Ion: map (self-hosted:12:3)",
+    "Ion: valueIsFalsey",
+    "Baseline: xvalueIsTruthy",
+    "plain_native_jit",
+    "run_wasm_sm.js line 41 > WebAssembly.Module:916249: Function Element.updateChild",
+];
+
+/// Lines that `process_perf_map_line` rejects, and unusual spellings it accepts.
+pub const PERF_MAP_ODD_LINES: [&str; 16] = [
+    "",
+    "garbage",
+    "5000f000 20",
+    "5000f000 20 ",
+    "5000f000  20 py::doublespace",
+    "G000f000 20 py::badhex",
+    "5000f000 2z py::badlen",
+    "-5000f000 20 py::minus",
+    " 5000f000 20 py::leadingspace",
+    "10000000000000000 20 py::toolong",
+    "0x5000f000 0x20 py::with0x",
+    "0x0x5000f040 0x0x20 py::twice0x",
+    "+5000f080 +20 py::plus",
+    "5000F0C0 2A py::UPPER",
+    "5000f100 20 py::name with  spaces ",
+    "0x 20 py::empty-after-0x",
+];
+
+/// A perf map file: lines in file order, and the address ranges `(start, end)` its well-formed lines
+/// declare (for aiming call-chain addresses; the harness does not interpret the file any further).
+pub fn gen_perf_map(rng: &mut Rng) -> (Vec<PerfMapLine>, Vec<(u64, u64)>) {
+    let mut lines = Vec::new();
+    let mut ranges: Vec<(u64, u64)> = Vec::new();
+    let mut cursor = 0x5000_0000u64 + 0x100 * rng.below(16);
+    let n = rng.range(1, 10);
+    let name = |rng: &mut Rng| -> String {
+        // JS-classified names are the interesting ones: bias towards them
+        match rng.below(4) {
+            0 => "py::f".to_string(),
+            _ => rng.pick(&JIT_NAMES).to_string(),
+        }
+    };
+    let len_of = |rng: &mut Rng| -> u64 { *rng.pick(&[1u64, 2, 0x10, 0x10, 0x40, 0x123, 0x1000]) };
+    for _ in 0..n {
+        match rng.below(100) {
+            0..=54 => {
+                let len = len_of(rng);
+                lines.push(PerfMapLine::Fn { addr: cursor, len, name: name(rng) });
+                ranges.push((cursor, cursor + len));
+                cursor += len + *rng.pick(&[0u64, 0, 1, 0x10]);
+            }
+            55..=68 if !ranges.is_empty() => {
+                // overlap an earlier function: same start, inside, across its end, containing it
+                let (s, e) = ranges[rng.below(ranges.len() as u64) as usize];
+                let l0 = (e - s).max(1);
+                let (addr, len) = match rng.below(5) {
+                    0 => (s, len_of(rng)),
+                    1 => (s + l0 / 2, len_of(rng)),
+                    2 => (e - 1, 2),
+                    3 => (s.saturating_sub(1), l0 + 2),
+                    _ => (s + 1, l0.saturating_sub(2)),
+                };
+                lines.push(PerfMapLine::Fn { addr, len, name: name(rng) });
+                ranges.push((addr, addr + len));
+            }
+            69..=75 => {
+                // zero-length function: at a fresh address or at the start / inside / end of an earlier one
+                let addr = if ranges.is_empty() || rng.chance(1, 3) {
+                    cursor
+                } else {
+                    let (s, e) = ranges[rng.below(ranges.len() as u64) as usize];
+                    *rng.pick(&[s, (s + e) / 2, e])
+                };
+                lines.push(PerfMapLine::Fn { addr, len: 0, name: name(rng) });
+                ranges.push((addr, addr));
+            }
+            76..=85 => {
+                // inside the address grid of the regular mappings (a regular mapping wins where both cover)
+                let addr = 0x40_0000 + rng.below(0x48000);
+                let len = len_of(rng);
+                lines.push(PerfMapLine::Fn { addr, len, name: name(rng) });
+                ranges.push((addr, addr + len));
+            }
+            _ => {
+                let l = rng.pick(&PERF_MAP_ODD_LINES).to_string();
+                // the spellings the parser accepts declare functions in this range
+                ranges.push((0x5000_f000, 0x5000_f120));
+                lines.push(PerfMapLine::Raw(l));
+            }
+        }
+    }
+    (lines, ranges)
 }
 
 struct Sim {
@@ -705,10 +1040,24 @@ pub fn gen_history(rng: &mut Rng, shape: &Shape) -> History {
         ref_time: 0,
         recs: Vec::new(),
         files: shape.files.clone(),
+        ..Default::default()
     };
     let base_t = 1_000_000 * rng.range(1, 50);
     let mut sim = Sim { live: BTreeMap::new(), maps: BTreeMap::new(), t: base_t, next_new_pid: 300 };
     let pid_pool: Vec<u32> = vec![100, 101, 200, 250];
+    // perf map files (not with --reuse-threads: the JIT function recycler is not modelled)
+    let mut jit: BTreeMap<u32, Vec<(u64, u64)>> = BTreeMap::new();
+    if shape.jit && !h.reuse && rng.chance(3, 5) {
+        for pid in [100u32, 101, 200, 250, 301, 302] {
+            if rng.chance(1, 3) {
+                let (lines, ranges) = gen_perf_map(rng);
+                for l in lines {
+                    h.perf_maps.push((pid, l));
+                }
+                jit.insert(pid, ranges);
+            }
+        }
+    }
     let len = if rng.chance(1, 8) { rng.range(shape.max_len / 2, shape.max_len) } else { rng.range(3, (shape.max_len / 4).max(6)) };
     // time step: mostly a few µs..ms, with frequent zero steps (ties)
     let step = |rng: &mut Rng| -> u64 {
@@ -734,7 +1083,22 @@ pub fn gen_history(rng: &mut Rng, shape: &Shape) -> History {
             return (kernel_mode, ip, c);
         }
         let maps = sim.maps.get(&pid).cloned().unwrap_or_default();
+        let jit_ranges = jit.get(&pid).cloned().unwrap_or_default();
         let addr = |rng: &mut Rng| -> u64 {
+            if !jit_ranges.is_empty() && rng.chance(1, 2) {
+                // in / around a perf-map function: first and last byte, one past the end (as a return address
+                // it is looked up at end - 1, inside), one before the start
+                let (s, e) = jit_ranges[rng.below(jit_ranges.len() as u64) as usize];
+                return match rng.below(8) {
+                    0 => s,
+                    1 => s + 1,
+                    2 => e.saturating_sub(1),
+                    3 => e,
+                    4 => e + 1,
+                    5 => s.saturating_sub(1),
+                    _ => s + rng.below((e - s).max(1)),
+                };
+            }
             if !maps.is_empty() && rng.chance(4, 5) {
                 let (s, e) = maps[rng.below(maps.len() as u64) as usize];
                 match rng.below(8) {
